@@ -59,8 +59,23 @@ type FuncAn struct {
 	byIf  map[*ssa.If]int
 }
 
-func NewFuncAn(w *World, fn *ssa.Function) *FuncAn {
-	fa := &FuncAn{W: w, Fn: fn, R: NewRenderer(w, fn), byIf: map[*ssa.If]int{}}
+// NewFuncAnCtx renders the parameters of fn as the given caller-side terms.
+func NewFuncAnCtx(w *World, fn *ssa.Function, args []string) *FuncAn {
+	subst := map[*ssa.Parameter]string{}
+	for i, p := range fn.Params {
+		if i < len(args) {
+			subst[p] = args[i]
+		}
+	}
+	return newFuncAn(w, fn, subst)
+}
+
+func NewFuncAn(w *World, fn *ssa.Function) *FuncAn { return newFuncAn(w, fn, nil) }
+
+func newFuncAn(w *World, fn *ssa.Function, subst map[*ssa.Parameter]string) *FuncAn {
+	r := NewRenderer(w, fn)
+	r.subst = subst
+	fa := &FuncAn{W: w, Fn: fn, R: r, byIf: map[*ssa.If]int{}}
 	for _, b := range fn.Blocks {
 		if len(b.Instrs) == 0 {
 			continue
@@ -328,18 +343,50 @@ func (fa *FuncAn) knownNonNilErr(v ssa.Value, e *Edge) bool {
 // result is known non-nil. Index -1 disables a test.
 func BoolErrSuccess(boolIdx, errIdx int) ExitClass {
 	return func(fa *FuncAn, ret *ssa.Return, in *Edge) bool {
-		if boolIdx >= 0 && boolIdx < len(ret.Results) {
-			if v, known := fa.knownBool(ret.Results[boolIdx], in); known && !v {
+		res := RetResults(ret)
+		if boolIdx >= 0 && boolIdx < len(res) {
+			if v, known := fa.knownBool(res[boolIdx], in); known && !v {
 				return false
 			}
 		}
-		if errIdx >= 0 && errIdx < len(ret.Results) {
-			if fa.knownNonNilErr(ret.Results[errIdx], in) {
+		if errIdx >= 0 && errIdx < len(res) {
+			if fa.knownNonNilErr(res[errIdx], in) {
 				return false
 			}
 		}
 		return true
 	}
+}
+
+// RetResults returns the result operands of a return, seeing through the
+// result spill go/ssa inserts in functions that contain a defer
+// (store r <- v; rundefers; t = *r; return t).
+func RetResults(ret *ssa.Return) []ssa.Value {
+	out := make([]ssa.Value, len(ret.Results))
+	for i, v := range ret.Results {
+		out[i] = v
+		u, ok := v.(*ssa.UnOp)
+		if !ok || u.Op != token.MUL || u.Block() != ret.Block() {
+			continue
+		}
+		a, ok := u.X.(*ssa.Alloc)
+		if !ok {
+			continue
+		}
+		var last ssa.Value
+		for _, in := range ret.Block().Instrs {
+			if in == ssa.Instruction(u) {
+				break
+			}
+			if st, ok := in.(*ssa.Store); ok && st.Addr == a {
+				last = st.Val
+			}
+		}
+		if last != nil {
+			out[i] = last
+		}
+	}
+	return out
 }
 
 // Exits enumerates (return, in-edge) pairs of the function.
@@ -349,6 +396,9 @@ func (fa *FuncAn) Exits() []Exit {
 		ret, ok := lastInstr(b).(*ssa.Return)
 		if !ok {
 			continue
+		}
+		if b == fa.Fn.Recover {
+			continue // the panic-recovery epilogue is not a normal exit
 		}
 		if len(b.Preds) == 0 {
 			out = append(out, Exit{ret, nil})
